@@ -9,9 +9,11 @@ by the harness, 0 = felt.Zero). Chains are written GENESIS FIRST.
 
   spec-init B*            start the acceptor with this local chain                   -> ok
   served REQ B | latest N H   something the source answered                              -> ok
+  restart                 Run returned after cancellation, a new Synchronizer instance starts -> ok | reject <why>
   S N H | R N H | RF N H  observed commit (stored / reverted / RevertHead failed)    -> ok | reject <why>
   N N H | G SN SH EN EH   observed feed send (new head / reorg range)                -> ok | reject <why>
   force-S N H P           push a block the harness has recorded as stored-but-unverified            -> ok
+  evidence N H            which kinds of answers contradict the head (N,H)  -> asked=B successor=B latest=B
   force-R N H             pop the head without the evidence check (after a recorded reject)  -> ok
   spec-end                -> `chain=<num:hash,...> owed=<k> pending=<k>`
   rounds K src B* | loc B*   canonical sequential schedule, K rounds, against a stable source
@@ -57,6 +59,7 @@ def splitBar (ws : List String) : List String × List String :=
 def specEv? : List String → Option SEv
   | ["served", r, b] => do pure (.served (← r.toNat?) (← blk? b))
   | ["latest", n, h] => do pure (.latest ⟨← n.toNat?, ← h.toNat?⟩)
+  | ["restart"] => some .restart
   | ["S", n, h] => do pure (.obs (.stored (← n.toNat?) (← h.toNat?)))
   | ["R", n, h] => do pure (.obs (.reverted (← n.toNat?) (← h.toNat?)))
   | ["RF", n, h] => do pure (.obs (.revertFailed (← n.toNat?) (← h.toNat?)))
@@ -129,6 +132,17 @@ def stepSpec (cfg : Cfg) (strict : Bool) (s : Spec) (line : String) : Spec × St
     match a.toNat?, b.toNat? with
     | some a, some b => (s, toString (sub64 a b))
     | _, _ => (s, "bad-op")
+  | ["evidence", n, h] =>
+    -- which kinds of answers speak against the head (n, h): asked-height / successor / latest
+    match s.chain, n.toNat?, h.toNat? with
+    | hd :: _, some n, some h =>
+      if hd.num == n && hd.hash == h then
+        let e1 := s.ev.blocks.any (fun rb => rb.1 == hd.num && rb.2.num == hd.num && rb.2.hash != hd.hash)
+        let e3 := s.ev.blocks.any (fun rb => rb.2.ok && rb.2.num == hd.num + 1 && rb.2.parent != hd.hash)
+        let e2 := justified true ⟨[], s.ev.latests⟩ s.chain hd
+        (s, s!"asked={e1} successor={e3} latest={e2}")
+      else (s, "reject revert-not-of-head")
+    | _, _, _ => (s, "bad-op")
   | ["force-R", n, h] =>
     -- continue after a rejected revert (the harness has recorded it): pop without the evidence check
     match s.chain, n.toNat?, h.toNat? with
